@@ -951,7 +951,9 @@ def check_ir_witnesses(ctx, F):
         TY = "wow_message_parser::parser::types::ty::Type::"
 
         def cont(name, version, line, members=(), um=False, file="a.wowm"):
-            tags = ("struct", "crate::parser::types::tags::ObjectTags", {"all_versions": ("versions", version), "rust_versions": None, "comment": None, "used_in_update_mask": um})
+            # versions for which Rust modules exist carry a set of Rust versions; the others (1.10, 1.11, ..) have none
+            rust = ("Some", ("rust-versions", version)) if version in ("1.12", "2.4.3", "3.3.5") else "None"
+            tags = ("struct", "crate::parser::types::tags::ObjectTags", {"all_versions": ("versions", version), "rust_versions": rust, "comment": None, "used_in_update_mask": um})
             fi = ("struct", "crate::file_info::FileInfo", {"file_name": file, "path": file, "start_position": line, "end_position": line + 3})
             return ("struct", C, {"name": name, "object_type": None, "sizes": None, "members": list(members), "tags": tags, "file_info": fi, "only_has_io_error": False,
                                   "rust_object_view": None, "objects_used_in": None})
@@ -965,15 +967,16 @@ def check_ir_witnesses(ctx, F):
         d1 = cont("D", "1.12", 20, [member("inner", e1)])  # D is listed before the struct it contains
         b1 = cont("B", "1.12", 10, [member("first", a1)])
         um = cont("Helper", "1.12", 40, um=True)
+        f1, f2 = cont("F", "1.10", 50), cont("F", "1.11", 60)  # two definitions of one name for versions without Rust modules
         seen = []
 
         def to_ir(a):
             seen.append([(c[2]["name"], c[2]["tags"][2]["all_versions"][1]) for c in a[0]])
             return ("ir",)
-        run_(fn["path"], [[a1, a2, a3, b1, d1, e1, um], None], {"::container::containers_to_ir": to_ir})
+        run_(fn["path"], [[a1, a2, a3, b1, d1, e1, um, f1, f2], None], {"::container::containers_to_ir": to_ir})
         got = seen[0] if seen else None
-        want_set = sorted([("A", "1.12"), ("A", "2.4.3"), ("A", "3.3.5"), ("B", "1.12"), ("D", "1.12"), ("E", "1.12")])
-        check("the struct list of [A{1.12}, A{2.4.3}, A{3.3.5} pasted from one definition, B containing A, D containing E, E, an update-mask helper]: which structs are emitted",
+        want_set = sorted([("A", "1.12"), ("A", "2.4.3"), ("A", "3.3.5"), ("B", "1.12"), ("D", "1.12"), ("E", "1.12"), ("F", "1.10"), ("F", "1.11")])
+        check("the struct list of [A{1.12}, A{2.4.3}, A{3.3.5} pasted from one definition, B containing A, D containing E, E, an update-mask helper, F{1.10} and F{1.11} (no Rust modules)]: which structs are emitted",
               sorted(got) if got is not None else None, want_set, fn)
         if got is not None and sorted(got) == want_set:
             order_ok = got.index(("A", "1.12")) < got.index(("B", "1.12")) and got.index(("E", "1.12")) < got.index(("D", "1.12"))
